@@ -56,8 +56,8 @@ def run(ck, facts, tier):
         some_arm, none_arm = ("arm", ("Some", "_"), vkey(first)), ("arm", "None", vkey(first))
         dset = fld(at(RATES, "q0"), "settlement")
         date = Sym("payload", vkey(first), 0)
-        all_some = vkey(Sym("forall", vkey(RATES), vkey(Sym("optcase", "map_or", vkey(dset), (vkey(Sym("bool", "false")),),
-                                                                vkey(cel.eq_sym(Sym("payload", vkey(dset), 0), date))))))
+        g_some = ("arm", ("Some", "_"), vkey(dset))          # `d.settlement.map_or(false, |v| v == date)` = `match d.settlement { Some(v) => v == date, None => false }`
+        all_some = vkey(Sym("forall", vkey(RATES), vkey(cel.Alt([(g_some, cel.eq_sym(Sym("payload", vkey(dset), 0), date)), (("not", g_some), Sym("bool", "false"))]))))
         all_none = vkey(Sym("forall", vkey(RATES), vkey(Sym("m", "is_none", vkey(dset), ()))))
         # the same guard written as Option equality: every quote's settlement == the first quote's settlement (Some(v) == Some(d) iff v == d; None == None; mixed unequal)
         all_eq = vkey(Sym("forall", vkey(RATES), vkey(cel.eq_sym(dset, first))))
